@@ -4,6 +4,7 @@ request/skip histories, jumps the clock (skip) to positions a test could never
 wait for, and compares every returned sample with an INTEGER-time reference
 model evaluated with the generator's own fixed random phases."""
 import copy
+import pickle
 
 import numpy as np
 
@@ -78,6 +79,9 @@ def gen_plan(rng, tier, idx, opts):
             pos += n
         elif r < 0.33:
             ops.append({"op": "get"})
+        elif r < 0.345:
+            ops.append({"op": "clone", "how": rng.choice(["copy", "deepcopy", "pickle"]), "use_clone": rng.random() < 0.5, "n": rng.randint(1, 20),
+                        "skip_first": rng.choice([0, 0, 1, 7, 1000])})
         elif r < 0.36:
             ops.append({"op": "sibling", "n": rng.randint(1, 20)})     # a similar generator is created and used in between
         elif r < 0.38 and not bursty:
@@ -100,7 +104,10 @@ def gen_plan(rng, tier, idx, opts):
             pos += (n or 1)
     if not any(o["op"] == "generate" for o in ops):
         ops.append({"op": "generate", "n": min(3, nmax)})
-    return {"world": "jakes", "Fd": Fd, "Ts": Ts, "L": L, "shape": shape, "rs_seed": rng.randrange(1 << 31), "ops": ops}
+    out = {"world": "jakes", "Fd": Fd, "Ts": Ts, "L": L, "shape": shape, "rs_seed": rng.randrange(1 << 31), "ops": ops}
+    if isinstance(shape, list) and rng.random() < 0.3:
+        out["shape_form"] = rng.choice(["list", "np"])
+    return out
 
 
 def model_samples(phi, psi, Fd, Ts, L, k0, n):
@@ -120,7 +127,12 @@ def execute(plan):
     shape = plan["shape"]
     shp = None if shape is None else (tuple(shape) if isinstance(shape, list) else int(shape))
     rs = np.random.RandomState(plan["rs_seed"])
-    gen = JakesSampleGenerator(Fd, Ts, L, shape=shp, RS=rs)
+    shp_arg = shp
+    if isinstance(shp, tuple) and plan.get("shape_form") == "list":
+        shp_arg = list(shp)                                  # e.g. the shape as it comes out of a JSON configuration
+    elif isinstance(shp, tuple) and plan.get("shape_form") == "np":
+        shp_arg = tuple(np.int64(x) for x in shp)            # e.g. computed with numpy
+    gen = JakesSampleGenerator(Fd, Ts, L, shape=shp_arg, RS=rs)
     phi = np.array(gen._phi_l, copy=True)      # "the generator's fixed random phases" (named by the property itself)
     psi = np.array(gen._psi_l, copy=True)
     base = () if shp is None else ((shp,) if isinstance(shp, int) else tuple(shp))
@@ -219,6 +231,36 @@ def execute(plan):
                         break
                     log.add("sibling", op["n"])
                     bump(res["probes"], "sibling_generator_used")
+                elif o == "clone":
+                    how = op["how"]
+                    if how == "copy":
+                        g2 = copy.copy(gen)
+                    elif how == "deepcopy":
+                        g2 = copy.deepcopy(gen)
+                    else:
+                        g2 = pickle.loads(pickle.dumps(gen))
+                    other, gen = (gen, g2) if op["use_clone"] else (g2, gen)
+                    # the object that is NOT used further makes one request: it continues the same process from the same
+                    # position, and whatever it does must not disturb the one that is used further
+                    sk = int(op.get("skip_first") or 0)
+                    if sk:
+                        other.skip_samples_for_next_generation(sk)
+                    other.generate_more_samples(op["n"])
+                    s2 = other.get_samples()
+                    if np.shape(s2) != base + (op["n"],):
+                        viol("shape", step, "a %s of the generator returned shape %s for a request of %d" % (how, np.shape(s2), op["n"]), kind="clone")
+                        break
+                    e2 = float(np.max(np.abs(np.asarray(s2) - model_samples(phi, psi, Fd, Ts, L, k + sk, op["n"]))))
+                    if not (e2 <= tol):
+                        viol("value", step, "a %s of the generator taken at position %d does not continue the same process: |h - model| = %.3g > %.3g" % (how, k, e2, tol), kind="clone")
+                        break
+                    if not (np.array_equal(gen._phi_l, phi) and np.array_equal(gen._psi_l, psi)):
+                        viol("phases", step, "cloning (%s) changed the generator's random phases" % how)
+                        break
+                    if not check_held(step):
+                        break
+                    log.add("clone", how, op["use_clone"], op["n"])
+                    bump(res["probes"], "generator_cloned_by_" + how)
                 elif o == "burst":
                     nn = op["n"]
                     for b in range(op["count"]):
